@@ -52,6 +52,10 @@ CLAIMED = {
          "Decides the structural clauses of C07 (NOT chunking independence, which quantifies over call histories): segment decrypters succeed only under a passed tag check for every segment length; Reader.Read releases only authenticated plaintext; no underlying I/O error is dropped (16 call sites); segment nonces are prefix||be32(counter)||last with the 2^32-1 limit, own counters incremented on every emitting path, last=false/true/at-EOF; Write after Close fails and Close is idempotent; the keyset-level reader rewinds before each next candidate and fails when none matches.",
          "Trusted: go/ssa; stdlib Open/hmac.Equal; io.ReadFull EOF conventions.",
          "DESIGN.md §4 C07"),
+ "C12": ("constant folding of every enum table pair (serialize∘parse inverse on all enum constants); shape rules for the keyset<->entries loops; argument-flow rules for ID requirements, type URL constants, optional sub-message presence; constant-field census",
+         "Decides the structural conditions C12 rests on: for every pair of enum table functions A->(B,error)/B->(A,error) (found by type in 30+ packages) parse(serialize(a))=a on every constant and unknown values are errors; keyset<->entries conversions and Public() map every entry in a complete same-index loop with the same ID/status/primary (RAW => ID requirement 0); parsers hand keySerialization.IDRequirement() on and serializers hand key.IDRequirement() to NewKeySerialization (or insist on RAW); type URLs are the package constants on both sides; optional custom kid presence by nil test; no serializer writes a constant into a field the parser reads back. Byte-identical re-serialization and Equal semantics are not decided.",
+         "Trusted: go/ssa; constant propagation over pure table functions; protobuf library.",
+         "DESIGN.md §4 C12"),
 }
 
 NOT_APPLICABLE = {
